@@ -373,3 +373,22 @@ Proof.
               (secs_stream secs) (soa_rr fin) _ _ Hrun Hws Hcat Hl eq_refl Hf eq_refl) as [n Hn].
   exists n. exact Hn.
 Qed.
+
+(* the dichotomy for arbitrary records and client zones *)
+Theorem ixfr_outcome_dichotomy_any : forall fin z0 ser ws rest,
+  ttl_ok (v_ttl fin) -> v_serial fin <> ser -> serial_lt (v_serial fin) ser = false ->
+  chunking tIXFR (soa_rr fin :: rest) ws -> Forall any_rec rest ->
+  match rest with x :: _ => exists b, x = soa_rr b /\ ttl_ok (v_ttl b) | [] => True end ->
+  (exists e n, inbound_xfr z0 tIXFR (Some ser) false ws = (Error e z0, n)) \/
+  (exists secs z1 b extra z' n,
+     inbound_xfr z0 tIXFR (Some ser) false ws = (Done z', n) /\
+     rest = secs_stream secs ++ soa_rr b :: extra /\ secs <> [] /\ skel_g ser fin secs /\
+     end_serial ser secs = v_serial fin /\ v_soa b = v_soa fin /\ m_secs z0 secs = Ok z1 /\ m_soa z1 b = Ok z').
+Proof.
+  intros fin z0 ser ws rest Httl Hs Hlt Hch Hwr Hhead.
+  destruct (inbound_xfr z0 tIXFR (Some ser) false ws) as [[z'|e z] n] eqn:E.
+  - right. destruct (ixfr_done_is_denotation_any fin z0 ser ws rest z' n Httl Hs Hlt Hch Hwr Hhead E)
+      as (secs & z1 & b & extra & H1 & H2 & H3 & H4 & H5 & H6 & H7).
+    exists secs, z1, b, extra, z', n. auto 10.
+  - left. pose proof (error_leaves_zone _ _ _ _ _ _ _ _ E). subst z. eauto.
+Qed.
